@@ -19,6 +19,7 @@ POOL = {
     'dwt_sym32': ("DWTForward(J=1, wave='db2', mode='symmetric')", 'float32'),
     'dwt1d_pc': ("DWT1DForward(J=2, wave='db2', mode='periodic')", 'float64'),
     'idwt_per': ("DWTInverse(wave='db3', mode='periodization')", 'float64'),
+    'dwt_coif1': ("DWTForward(J=1, wave='coif1', mode='zero')", 'float64'),      # same filter length as db3, other taps
 }
 ORDER = list(POOL)
 LOADS = ['near_sym_a', 'qshift_a', 'qshift_b']
@@ -33,7 +34,7 @@ def _arr(shape, k, dtype):
 def inputs(name, i):
     """Fixed input number i (0/1: different shapes) for module `name`, as a list-structured description of numpy arrays."""
     dt = np.float32 if POOL[name][1] == 'float32' else np.float64
-    if name in ('dtf_a', 'dtf_b', 'scat1', 'dwt_per', 'dwt_sym32'):
+    if name in ('dtf_a', 'dtf_b', 'scat1', 'dwt_per', 'dwt_sym32', 'dwt_coif1'):
         shape = [(1, 1, 8, 8), (2, 2, 6, 10)][i] if name != 'scat1' else [(1, 1, 8, 8), (2, 2, 6, 12)][i]
         return {'x': _arr(shape, i, dt)}
     if name == 'dwt1d_pc':
@@ -109,7 +110,7 @@ def call(mod, name, i, gradmode):
         live = [o for o in outs if o.requires_grad]
         cots = [torch.as_tensor(_arr(tuple(o.shape), 9, np.float64)).to(o.dtype) for o in live]
         grads = list(torch.autograd.grad(live, leaves, grad_outputs=cots, allow_unused=True))
-    return arg_struct, before, outs, grads
+    return arg_struct, before, outs, grads, out
 
 
 def digest(o):
@@ -142,9 +143,10 @@ def op_result_digest(op, env):
     if kind == 'call':
         _, name, i, gm = op
         m = env['inst'][name]
-        args, before, outs, grads = call(m, name, i, gm)
+        args, before, outs, grads, raw = call(m, name, i, gm)
         after = digest(args)
-        env['keep'].append((op, outs + [g for g in grads if g is not None], digest(outs + [g for g in grads if g is not None])))
+        kept = [raw, [g for g in grads if g is not None]]          # the very objects handed to the caller
+        env['keep'].append((op, kept, digest(kept)))
         return {'outputs': digest(outs), 'grads': digest(grads), 'args_before': before, 'args_after': after}
     raise ValueError(op)
 
